@@ -350,6 +350,11 @@ func legFacts(c *Ctx) {
 			}
 		}
 		var inputs [][]rune
+		// a multi-prefix pattern gets inputs that start with each of its prefixes (always run: index < 30),
+		// so that the LeadingPrefixes fact is exercised whatever alphabet sample the seed picked
+		for _, s := range fo.LeadingPrefixes {
+			inputs = append(inputs, append([]rune(s), '1', 'a'), append([]rune(s), 'a', '1'))
+		}
 		maxLen := c.N(3, 4)
 		if len(al) <= 4 {
 			maxLen++
